@@ -24,7 +24,9 @@ import (
 	"time"
 
 	"github.com/Comcast/rulio/core"
+	"github.com/Comcast/rulio/sys"
 
+	"verif/lib/cronner"
 	"verif/lib/drv"
 	"verif/lib/ref"
 	"verif/lib/rep"
@@ -633,12 +635,71 @@ func throttle(r *rep.Report, rng *rand.Rand, n int) {
 	}
 }
 
+// groupCapacity: the maximum of a location can be configured per group of locations
+// (SystemControl.LocToGroup + GroupControls), next to the default for all others.
+func groupCapacity(r *rep.Report) {
+	for _, linear := range []bool{false, true} {
+		conf := sys.ExampleConfig()
+		conf.UnindexedState = linear
+		cont := sys.ExampleSystemControl()
+		cont.LocationTTL = sys.Forever
+		cont.DefaultLocControl = &core.Control{MaxFacts: 50, Verbosity: core.NOTHING, NoTiming: true}
+		cont.LocToGroup = func(name string) string {
+			if strings.HasPrefix(name, "small") {
+				return "small"
+			}
+			return ""
+		}
+		cont.GroupControls = sys.GroupControls{"small": &core.Control{MaxFacts: 3, Verbosity: core.NOTHING, NoTiming: true}}
+		s, err := sys.NewSystem(drv.Ctx(), *conf, *cont, cronner.New(true))
+		if err != nil {
+			r.Violate("", "cannot build a System with group controls: "+err.Error(), nil)
+			continue
+		}
+		for _, loc := range []string{"small-1", "other-1", "small-2"} {
+			max := 50
+			if strings.HasPrefix(loc, "small") {
+				max = 3
+			}
+			acked, refused := 0, 0
+			for i := 0; i < 10; i++ {
+				var aerr error
+				if i%3 == 2 {
+					_, aerr = s.AddRule(drv.Ctx(), loc, fmt.Sprintf("r%d", i), `{"when":{"pattern":{"a":"b"}},"action":{"code":"1"}}`)
+				} else {
+					_, aerr = s.AddFact(drv.Ctx(), loc, fmt.Sprintf("g%d", i), fmt.Sprintf(`{"n":%d}`, i))
+				}
+				if aerr == nil {
+					acked++
+				} else {
+					refused++
+				}
+			}
+			size, _ := s.GetSize(drv.Ctx(), loc)
+			r.Case(true, fmt.Sprint("group-capacity", linear, loc))
+			r.Count("group_capacity_cases", 1)
+			want := 10
+			if max < want {
+				want = max
+			}
+			if size > max || acked != want {
+				r.Violate("", fmt.Sprintf("a location whose group is configured with a maximum of %d holds %d items after 10 adds (%d acknowledged, %d refused)", max, size, acked, refused), rep.J{"linear": linear, "location": loc, "configured_maximum": max, "size": size, "acknowledged": acked, "refused": refused})
+			}
+		}
+		// building a System installs its default control process-wide: leave the usual one behind
+		drv.NewSys(drv.SysOpts{}, cronner.New(true))
+	}
+}
+
 func main() {
 	e := rep.GetEnv()
 	r := rep.New(e)
 	rng := rand.New(rand.NewSource(e.BatchSeed()))
 	switch e.Stage {
 	case "capacity":
+		if e.Batch == 0 {
+			groupCapacity(r)
+		}
 		capacity(r, rng, e.Pick(400, 3000))
 		capacityConcurrent(r, rng, e.Pick(240, 1500))
 	case "breaker":
